@@ -143,7 +143,7 @@ def run_case(ctx, kind_, idx):
                     inner = new_x[(new_x > x[0]) & (new_x < x[-1])]
                     new_x = np.concatenate([[x[0]], inner, [x[-1]]])
                     wv = wv0 if wv0 is not None else Weaver(x.copy(), y.copy())
-                    arg = new_x if rng.integers(0, 2) else [float(v) for v in new_x]
+                    arg = [new_x, [float(v) for v in new_x], gen.as_container(rng, new_x, allow=("series",))[0]][int(rng.integers(0, 3))]
                     wv.interpolate(new_x=arg, method=method)
                     gx, got = wv.get()
                     ctx.monitor("c13:weaver_grid")
@@ -152,8 +152,8 @@ def run_case(ctx, kind_, idx):
                         ctx.violation("weaver_explicit_grid_not_kept", cid, {"case": info})
                         return
                 else:
-                    xin, _a = gen.as_container(rng, x, allow=("array", "list", "readonly"))
-                    yin, _b = gen.as_container(rng, y, allow=("array", "list", "readonly"))
+                    xin, _a = gen.as_container(rng, x, allow=("array", "list", "readonly", "series", "tuple"))
+                    yin, _b = gen.as_container(rng, y, allow=("array", "list", "readonly", "series", "tuple"))
                     if np.all(x == np.round(x)) and rng.integers(0, 2):
                         # integer-valued abscissae: an integer-dtype grid (arange / list of ints) is the natural request
                         lo_, hi_ = int(x[0]) - 2, int(x[-1]) + 2
